@@ -1,6 +1,7 @@
 mod crypto;
 mod dispatch;
 mod kernels;
+mod kzg;
 mod prog;
 mod util;
 
@@ -122,6 +123,10 @@ fn answer(line: &str, cap: usize) -> String {
         | "mvan" | "bary" | "lpi" => {
             let toks: Vec<&str> = line.split(' ').filter(|s| !s.is_empty()).collect();
             catch_unwind(AssertUnwindSafe(|| kernels::answer(&toks))).unwrap_or_else(|_| "panic".to_string())
+        }
+        c if c.starts_with("kzg") => {
+            let toks: Vec<&str> = line.split(' ').filter(|s| !s.is_empty()).collect();
+            catch_unwind(AssertUnwindSafe(|| kzg::answer(&toks))).unwrap_or_else(|_| "panic".to_string())
         }
         "tr" | "g1dec" | "g2dec" | "g1mul" | "g1add" | "g2mul" => {
             let toks: Vec<&str> = line.split(' ').filter(|s| !s.is_empty()).collect();
